@@ -115,6 +115,16 @@ impl LruPageCache {
     
     /// Read data from cache or load it from file
     pub fn read(&self, file_id: FileId, offset: u64, length: usize) -> Result<CacheBuffer> {
+        // Clamp the request to the file: nothing exists at or beyond the end of an
+        // opened file, and an unclamped request would overflow the offset/page-id
+        // arithmetic (offsets >= 2^44, offset + length > u64::MAX) or walk and cache
+        // millions of empty pages beyond the end of the file.
+        let length = match self.file_manager.file_size(file_id) {
+            Ok(size) if offset >= size => return Ok(CacheBuffer::new()),
+            Ok(size) => std::cmp::min(length as u64, size - offset) as usize,
+            Err(_) => length, // virtual file id without a backing file
+        };
+
         // Calculate which pages we need
         let start_page = FileManager::offset_to_page_id(offset);
         let end_offset = offset + length as u64;
